@@ -51,5 +51,12 @@ theorem C02_solve_sound (m : IModel) (h : m.WF) (pol : Policy) (fuel : Nat) (v :
 `[-1, 0]` case the source comments on -/
 example : splitMid [-1, 0] = -1 ∧ splitMid [0, 1] = 0 ∧ splitMid [-3, 4] = 0 := by decide
 
+/-- **C02 without the fuel proviso**: for duplicate-free declared domains every fuel
+`≥ m.fuelBound` suffices (`IModel.search_terminates`), so a satisfiable model always yields. -/
+theorem C02_solve_complete_total (m : IModel) (h : m.WF) (hnd : ∀ d ∈ m.doms, d.Nodup) (pol : Policy)
+    (fuel : Nat) (hf : m.fuelBound ≤ fuel) (a : Asg) (ha : m.IsSol a) :
+    ∃ v, solveResult (search m.n none pol fuel m.ps m.store) = some v :=
+  C02_solve_complete m h pol fuel a ha (m.search_terminates h hnd none (fun _ e => by cases e) pol fuel hf)
+
 end C02
 end Selen
